@@ -7,7 +7,7 @@ from hypothesis import strategies as st
 from ..core import Clause, call, require
 from ..oracles import banks_ref as R
 from ..strategies import bank_specs, floats
-from .c05 import _thr, bank_labels, build_or_discard, narrowed_specs
+from .c05 import _thr, apply_warmup, bank_labels, build_or_discard, narrowed_specs, warmups
 
 PROPERTY = "C06"
 LEVEL = "exploration"
@@ -51,6 +51,7 @@ def _setup(case):
     bank = build_or_discard(spec, thr)
     i = case["filt"] % spec["num_filts"]
     W = _width(case, spec, i)
+    apply_warmup(bank, spec["num_filts"], i, W, case.get("warmup"))
     return spec, thr, bank, i, W
 
 
@@ -170,6 +171,7 @@ def _cases():
     return st.fixed_dictionaries({
         "bank": banks, "filt": st.integers(0, 39), "width": widths,
         "bins": st.one_of(floats(0.25, 2.0), floats(0.25, 12.0)),
+        "warmup": warmups(),
     })
 
 
